@@ -437,7 +437,7 @@ void interval_family(std::string const &rname, base_of<R> const a, base_of<R> co
   long k = 0;
   for_all_scripts(
       maxlen, [&](std::vector<int> const &s) { drive_draw<R>(rname, a, b, s, (k++ % 2) == 0, &agg, &sagg); }, stride,
-      static_cast<long>(a) * 7 + static_cast<long>(b));
+      static_cast<long>((static_cast<unsigned long>(a) * 7UL + static_cast<unsigned long>(b)) % 3UL));
 #if defined(C20_PARAM_API)
   for_all_scripts(1, [&](std::vector<int> const &s) { drive_param<R>(rname, a, b, s); });
 #endif
